@@ -6,6 +6,9 @@
 import Peppi.Lemmas.C12Cols
 import Peppi.Lemmas.C12
 import Peppi.Stream
+import Peppi.Prog
+import Peppi.ReadProg
+import Peppi.ReadStream
 set_option linter.unusedVariables false
 namespace Peppi.Props.C12
 
@@ -62,5 +65,51 @@ theorem readExactS_flat : ∀ (s : Stream) (n : Nat),
     (∀ e, readExactS n s = .err e → ∃ e', Rd.take n s.flatten = .err e') ∧
     (∀ p, readExactS n s ≠ .panic p) :=
   _root_.Peppi.readExactS_flat 
+
+/- from `Peppi.Prog` -/
+open Peppi.Prog in
+theorem frag {α} (p : Prog α) : ∀ (h : HSrc),
+    (∀ a rest, p.run h.pieces.flatten = .ok (a, rest) →
+      ∃ s' used, p.runS h = .ok (a, ⟨s', h.fed.map (· ++ used)⟩) ∧ s'.flatten = rest ∧ h.pieces.flatten = used ++ rest) ∧
+    (∀ e, p.run h.pieces.flatten = .err e → ∃ e', p.runS h = .err e') ∧
+    (∀ x, p.run h.pieces.flatten = .panic x → p.runS h = .panic x) :=
+  _root_.Peppi.Prog.frag p
+
+/- from `Peppi.ReadProg` -/
+open Extracted Peppi.Prog in
+theorem run_readProg (T : TextOracle) (opts : Opts) (fuel : Nat) (x : Bytes) (hf : 2 * x.length + 2 ≤ fuel) :
+    (readProg T opts fuel).run x = readP T opts x :=
+  _root_.Peppi.Prog.run_readProg T opts fuel x hf
+
+/- from `Peppi.ReadStream` -/
+open Extracted Prog in
+theorem readSlpS_frag (T : TextOracle) (opts : Opts) (s : Stream) :
+    (∀ g, readSlp T opts s.flatten = .ok g →
+      ∃ fed, readSlpS T opts s = .ok (g, fed) ∧
+        (opts.computeHash = true → ∃ used rest, fed = some used ∧ s.flatten = used ++ rest ∧ g.hashedLen = some used.length) ∧
+        (opts.computeHash = false → fed = none ∧ g.hashedLen = none)) ∧
+    (∀ e, readSlp T opts s.flatten = .err e → ∃ e', readSlpS T opts s = .err e') ∧
+    (∀ p, readSlp T opts s.flatten = .panic p → readSlpS T opts s = .panic p) :=
+  _root_.Peppi.readSlpS_frag T opts s
+
+/- from `Peppi.ReadStream` -/
+open Extracted Prog in
+theorem parseEventS_frag (ps : ParseState) (h : HSrc) (code : Nat) (ps' : ParseState) (rest : Bytes)
+    (hp : parseEvent ps h.pieces.flatten = .ok ((code, ps'), rest)) :
+    ∃ s' used, (parseEventP ps).runS h = .ok ((code, ps'), ⟨s', h.fed.map (· ++ used)⟩) ∧ s'.flatten = rest ∧
+      h.pieces.flatten = used ++ rest ∧ ps'.bytesRead = ps.bytesRead + used.length :=
+  _root_.Peppi.parseEventS_frag ps h code ps' rest hp
+
+/- from `Peppi.ReadStream` -/
+open Extracted Prog in
+theorem parseHeaderS_frag (h : HSrc) (rawLen : Nat) (rest : Bytes) (hp : parseHeader h.pieces.flatten = .ok (rawLen, rest)) :
+    ∃ s' used, parseHeaderP.runS h = .ok (rawLen, ⟨s', h.fed.map (· ++ used)⟩) ∧ s'.flatten = rest ∧ h.pieces.flatten = used ++ rest :=
+  _root_.Peppi.parseHeaderS_frag h rawLen rest hp
+
+/- from `Peppi.ReadStream` -/
+open Extracted Prog in
+theorem parseStartS_frag (T : TextOracle) (h : HSrc) (ps : ParseState) (rest : Bytes) (hp : parseStart T h.pieces.flatten = .ok (ps, rest)) :
+    ∃ s' used, (parseStartP T).runS h = .ok (ps, ⟨s', h.fed.map (· ++ used)⟩) ∧ s'.flatten = rest ∧ h.pieces.flatten = used ++ rest :=
+  _root_.Peppi.parseStartS_frag T h ps rest hp
 
 end Peppi.Props.C12
